@@ -293,7 +293,7 @@ def run(ctx):
                 a = b = iv(f0["start"]) if iv(f0["start"]) is not None else iv(f0["end"])
             if qi < 6:                      # the 2^29 limit itself, deterministically
                 a, b = [(1, M), (M - 5, M), (M, M), (M - 1, M + 3), (1, M - 1), (M - 3, M - 1)][qi]
-            if r.random() < 0.3:
+            if r.random() < 0.3 and qi >= 6:
                 f0 = r.choice(feats)
                 if iv(f0["start"]) is not None and iv(f0["end"]) is not None:
                     a, b = iv(f0["start"]) + r.choice([-1, 0, 1]), iv(f0["end"]) + r.choice([-1, 0, 1])
@@ -307,6 +307,11 @@ def run(ctx):
             kind = r.choice(["region_tuple", "region_kw", "region_str", "region_str_strand", "region_seqid_only",
                              "region_feature", "region_noseqid", "one_sided",
                              "limit_all", "limit_all_str", "limit_type", "limit_children", "limit_parents"])
+            if qi < 6:
+                # ... in every set, with both containment modes and the two-sided forms of region() and limit= in turn
+                within = bool((qi + si) % 2)
+                kind = ["region_tuple", "limit_all", "region_kw", "limit_type", "region_str", "limit_all_str"][(qi + si // 2) % 6]
+                seqid, strand, ft = "chr1", None, None
             inp = {"lines": lines, "query": kind, "seqid": seqid, "start": a, "end": b, "completely_within": within,
                    "strand": strand, "featuretype": ft}
             res.evaluations += 1
